@@ -224,6 +224,98 @@ theorem stop_bounds_projected_gradient_partial {P : E → E} {C : Set E} (hC : C
   have := (stop_rule_window_one errs it.err eps).1 hstop
   linarith
 
+/-! ## ε-optimality certificate and what each stopping mode guarantees -/
+
+/-- C11.eps_optimality_certificate: for a convex differentiable loss (gradient inequality), `x ∈ C` and ANY competitor `z ∈ C`:
+`f(x) − f(z) ≤ ‖y‖ · (‖∇f(x)‖ + μ ‖z − x‖)` with `y = P(x − ∇f(x)/μ) − x` the projected-gradient residual.  Hence a residual
+`‖y‖ ≤ δ` certifies `f(x) ≤ min_C f + δ (‖∇f(x)‖ + μ D)` when every point of `C` is within `D` of `x` (e.g. `D` = diameter of
+the physical set: `√2` for states in the normalised basis). -/
+theorem eps_optimality_certificate {P : E → E} {C : Set E} (hP : IsProjOn P C) {f : E → ℝ} {g : E → E}
+    (hconv : ∀ u w, f u + ⟪g u, w - u⟫ ≤ f w) {mu : ℝ} (hmu : 0 < mu) (x : E) {z : E} (hz : z ∈ C) :
+    f x - f z ≤ ‖pgdbDir P g mu x‖ * (‖g x‖ + mu * ‖z - x‖) := by
+  have h1 := linearised_gap_le hP g hmu x hz
+  have h2 := hconv x z
+  linarith
+
+/-- C11.eps_optimality_of_small_residual: the same with explicit bounds `δ` on the residual and `D` on the distance. -/
+theorem eps_optimality_of_small_residual {P : E → E} {C : Set E} (hP : IsProjOn P C) {f : E → ℝ} {g : E → E}
+    (hconv : ∀ u w, f u + ⟪g u, w - u⟫ ≤ f w) {mu : ℝ} (hmu : 0 < mu) (x : E) {z : E} (hz : z ∈ C) {delta D : ℝ}
+    (hres : ‖pgdbDir P g mu x‖ ≤ delta) (hD : ‖z - x‖ ≤ D) :
+    f x - f z ≤ delta * (‖g x‖ + mu * D) := by
+  have h := eps_optimality_certificate hP hconv hmu x hz
+  have hn : 0 ≤ ‖pgdbDir P g mu x‖ := norm_nonneg _
+  have hd : 0 ≤ delta := le_trans hn hres
+  have h1 : ‖g x‖ + mu * ‖z - x‖ ≤ ‖g x‖ + mu * D := by
+    have := mul_le_mul_of_nonneg_left hD hmu.le
+    linarith
+  have h0 : 0 ≤ ‖g x‖ + mu * ‖z - x‖ := by positivity
+  calc f x - f z ≤ ‖pgdbDir P g mu x‖ * (‖g x‖ + mu * ‖z - x‖) := h
+    _ ≤ delta * (‖g x‖ + mu * ‖z - x‖) := mul_le_mul_of_nonneg_right hres h0
+    _ ≤ delta * (‖g x‖ + mu * D) := mul_le_mul_of_nonneg_left h1 hd
+
+/-- residual bound `δ_mode` implied by the stopping test of each mode (window 1) for accepted step size `α` -/
+noncomputable def stopDelta (mode : StopMode) (eps gamma alpha mu : ℝ) : ℝ :=
+  match mode with
+  | .sumAbsDiffProjGrad => eps
+  | .sumAbsDiffVar => eps / alpha
+  | .singleDiffLoss => Real.sqrt (eps / (gamma * alpha * mu))
+  | .sumAbsDiffLoss => Real.sqrt (eps / (gamma * alpha * mu))
+
+/-- C11.stop_mode_guarantees: a backtracking run (window 1, `sqrt = Real.sqrt`) that stops at an iteration taken from the
+feasible point `x` returns `x_next` with, for every competitor `z ∈ C`,
+`f(x_next) − f(z) ≤ δ_mode · (‖∇f(x)‖ + μ ‖z − x‖)` where the residual bound `δ_mode = stopDelta …` implied by the stopping test is
+* `sum_absolute_difference_projected_gradient`: `eps`;
+* `sum_absolute_difference_variable`: `eps / α`;
+* `single_difference_loss` and `sum_absolute_difference_loss`: `√(eps / (γ α μ))`
+(`α` the accepted step size of that iteration, `γ > 0`).  This is the ε-optimality of the returned estimate in terms of the
+stopping threshold — with the run-dependent quantities `α`, `‖∇f(x)‖` that the history records. -/
+theorem stop_mode_guarantees {P : E → E} {C : Set E} (hC : Convex ℝ C) (hP : IsProjOn P C) {f : E → ℝ} {g : E → E}
+    (hconv : ∀ u w, f u + ⟪g u, w - u⟫ ≤ f w) {mu gamma : ℝ} (hmu : 0 < mu) (hgam : 0 < gamma) (mode : StopMode)
+    (btFuel : Nat) {x : E} (hx : x ∈ C) (it : PgdbIter ℝ E)
+    (h : pgdbStep P f g ip Real.sqrt mu gamma mode btFuel x = some it) (errs : List ℝ) (eps : ℝ)
+    (hstop : isDoing (errs ++ [it.err]) 1 eps = false) {z : E} (hz : z ∈ C) :
+    f it.xNext - f z ≤
+      stopDelta mode eps gamma it.alpha mu * (‖g x‖ + mu * ‖z - x‖) := by
+  obtain ⟨_, ha0, _, hy, hxn, _⟩ :=
+    pgdb_step_feasible hC P (fun w => (hP w).1) f g ip Real.sqrt mu gamma mode btFuel x hx it h
+  obtain ⟨hdec, hle, _⟩ := pgdb_step_decrease hC hP f g Real.sqrt hmu hgam.le mode btFuel hx it h
+  have herr : it.err = errorValue mode f Real.sqrt (fun v => ip v v) x (x + it.alpha • it.y) it.y := by
+    unfold pgdbStep at h
+    cases hb : backtrack f g ip x (pgdbDir P g mu x) gamma btFuel 1 with
+    | none => simp [hb] at h
+    | some a => simp only [hb, Option.some.injEq] at h; subst h; rfl
+  have hstop' := (stop_rule_window_one errs it.err eps).1 hstop
+  obtain ⟨m1, m2, m3, m4⟩ := stop_criteria_meaning f x it.y it.alpha ha0.le
+  have hcert := eps_optimality_certificate hP hconv hmu x hz
+  have hyy : pgdbDir P g mu x = it.y := by rw [hy, pgdbDir_def]
+  rw [hyy] at hcert
+  have hfac : 0 ≤ ‖g x‖ + mu * ‖z - x‖ := by positivity
+  -- it suffices to bound the residual by the mode's δ
+  suffices hres : ‖it.y‖ ≤ stopDelta mode eps gamma it.alpha mu by
+    calc f it.xNext - f z ≤ f x - f z := by linarith
+      _ ≤ ‖it.y‖ * (‖g x‖ + mu * ‖z - x‖) := hcert
+      _ ≤ _ := mul_le_mul_of_nonneg_right hres hfac
+  have hpos : 0 < gamma * it.alpha * mu := by positivity
+  have hsq : ∀ d : ℝ, d ≤ eps → f x - f it.xNext ≤ d → ‖it.y‖ ≤ Real.sqrt (eps / (gamma * it.alpha * mu)) := by
+    intro d hd hfd
+    apply Real.le_sqrt_of_sq_le
+    rw [le_div_iff₀ hpos]
+    nlinarith
+  cases mode with
+  | sumAbsDiffProjGrad => simp only [stopDelta]; rw [herr, m4] at hstop'; exact hstop'
+  | sumAbsDiffVar =>
+    simp only [stopDelta]
+    rw [herr, m3] at hstop'
+    rw [le_div_iff₀ ha0]; linarith
+  | singleDiffLoss =>
+    simp only [stopDelta]
+    rw [herr, m1, ← hxn] at hstop'
+    exact hsq _ hstop' le_rfl
+  | sumAbsDiffLoss =>
+    simp only [stopDelta]
+    rw [herr, m2, ← hxn] at hstop'
+    exact hsq _ hstop' (le_abs_self _)
+
 /-! ## D13 — the projection wrapper breaks the descent property (negation witness) -/
 
 /-- stacked representation of the two-variable toy POVM parametrisation: the third entry is the dependent one -/
